@@ -29,7 +29,7 @@ def gen_cases(ctx):
     rng = ctx.rng
     enzymes = {e["name"]: e for e in ctx.tables["enzymes"]}
     cases = []
-    n = 60 if ctx.quick else 600
+    n = 150 if ctx.quick else 1500
     tries = 0
     while len(cases) < n and tries < 10 * n:
         tries += 1
@@ -68,7 +68,7 @@ def gen_cases(ctx):
         calls = []
         for _ in range(rng.choice([1, 2, 3, 4])):
             kind = rng.choice(["ok", "ok", "missing", "inject", "inject", "duplicate", "invalid-module",
-                               "unused", "invalid-vector", "bad-citation"])
+                               "unused", "invalid-vector", "bad-citation", "bad-citation"])
             mods = list(range(q))
             rng.shuffle(mods)
             call = {"kind": kind, "vector": vi, "mods": mods}
@@ -101,8 +101,12 @@ def gen_cases(ctx):
             elif kind == "bad-citation":
                 # an out-of-range index in some cited feature of a participating record (applied by the worker)
                 cands = [(i, k) for i in mods + [vi] for k, f in enumerate(els[i]["rec"]["features"]) if f.get("cit")]
+                multi = [(i, k) for (i, k) in cands if len(els[i]["rec"]["features"][k]["cit"]) >= 2]
                 if cands:
-                    call["corrupt"] = list(rng.choice(cands))
+                    # mostly a feature citing several references, the fault at a later citation
+                    call["corrupt"] = list(rng.choice(multi if multi and rng.random() < 0.75 else cands))
+                    ncit = len(els[call["corrupt"][0]]["rec"]["features"][call["corrupt"][1]]["cit"])
+                    call["corrupt_at"] = ncit - 1 if rng.random() < 0.6 else rng.randrange(0, ncit)
                 else:
                     call["kind"] = "ok"
             calls.append(call)
@@ -134,7 +138,7 @@ def run_calls(case):
             i, k = call["corrupt"]
             f = ents[i].record.features[k]
             restore_cit = (f, list(f.qualifiers["citation"]))
-            f.qualifiers["citation"][0] = "[99]"
+            f.qualifiers["citation"][call.get("corrupt_at", 0) % len(f.qualifiers["citation"])] = "[99]"
         pre_cit = annot.cit_snapshot(involved)
         pre_full = annot.full_snapshot(ents)
         mid = []
